@@ -92,43 +92,40 @@ def d2_columns(ctx, rep):
     if cols is not None:
         rep.check('D2.loop', fn, ret, is_self_attr(cols, fn.self_name, 'columns'), 'explicit columns=self.columns',
                   'the frame is re-labelled with something other than the training columns')
-    # co-appends in _fit_columns
-    fc = gauss.gm_method(ctx, '_fit_columns')
-    rets = [n for n in walk_no_nested(fc.node) if isinstance(n, ast.Return) and isinstance(n.value, ast.Tuple)]
-    fit = gauss.gm_method(ctx, 'fit')
-    ok = False
-    if rets and len(rets[0].value.elts) == 2 and all(isinstance(e, ast.Name) for e in rets[0].value.elts):
-        a, b = (e.id for e in rets[0].value.elts)
-        apps = {}
-        for n in walk_no_nested(fc.node):
-            if isinstance(n, ast.Call) and isinstance(n.func, ast.Attribute) and n.func.attr == 'append' \
-                    and isinstance(n.func.value, ast.Name) and n.func.value.id in (a, b):
-                apps.setdefault(n.func.value.id, []).append(n)
-        if len(apps.get(a, [])) == 1 and len(apps.get(b, [])) == 1:
-            sa, sb = stmt_of(apps[a][0]), stmt_of(apps[b][0])
-            lp = sa._parent
-            same_loop = isinstance(lp, ast.For) and sa in lp.body and sb in lp.body
-            over_items = same_loop and isinstance(lp.iter, ast.Call) and call_name(lp.iter) == 'items'
-            # the column name appended is the loop's key, the univariate is fitted on the loop's column
-            keyv = lp.target.elts[0].id if same_loop and isinstance(lp.target, ast.Tuple) else None
-            ok = bool(same_loop and over_items and isinstance(apps[a][0].args[0], ast.Name) and apps[a][0].args[0].id == keyv
-                      and not any(isinstance(x, (ast.Continue, ast.Break)) for x in ast.walk(lp)))
-    rep.check('D2.coappend', fc, fc.node.name, ok, 'one append to each list per iteration of X.items(), no skipping',
-              'columns / univariates are not built by parallel appends: position i of one no longer belongs to position i of the other',
-              construct='co-append of columns and univariates')
-    # fit stores them unchanged
-    st = [n for n in walk_no_nested(fit.node) if isinstance(n, ast.Assign) and isinstance(n.value, ast.Call)
-          and call_name(n.value) == '_fit_columns']
-    good = False
-    if st and isinstance(st[0].targets[0], ast.Tuple) and len(st[0].targets[0].elts) == 2:
-        n1, n2 = (e.id for e in st[0].targets[0].elts)
-        s1 = [n for n in walk_no_nested(fit.node) if isinstance(n, ast.Assign) and is_self_attr(n.targets[0], fit.self_name, 'columns')]
-        s2 = [n for n in walk_no_nested(fit.node) if isinstance(n, ast.Assign) and is_self_attr(n.targets[0], fit.self_name, 'univariates')]
-        good = (len(s1) == 1 and len(s2) == 1 and isinstance(s1[0].value, ast.Name) and s1[0].value.id == n1
-                and isinstance(s2[0].value, ast.Name) and s2[0].value.id == n2)
-    rep.check('D2.coappend', fit, st[0] if st else fit.node.name, good,
-              'fit stores the (columns, univariates) pair returned by _fit_columns in that order',
-              'fit does not store the co-ordered (columns, univariates) pair', construct='fit stores columns/univariates')
+    # columns and univariates are co-ordered lists with one element per training column (provenance through the fit pipeline)
+    fit, vals = gauss.fit_pipeline(ctx)
+    (st_c, vc), (st_u, vu) = vals['columns'], vals['univariates']
+    anchor = st_c if st_c is not None else fit.node.name
+
+    def is_list(v):
+        return isinstance(v, tuple) and len(v) == 3 and v[0] == 'list'
+    if not (is_list(vc) and is_list(vu)):
+        rep.undecided('D2.coappend', fit, anchor, f'how fit builds columns / univariates was not recognised ({vc} / {vu})',
+                      construct='co-ordered columns and univariates')
+    else:
+        kc, ku = vc[1], vu[1]
+        okc = isinstance(kc, tuple) and kc and kc[0] == 'key'
+        oku = isinstance(ku, tuple) and ku and ku[0] == 'fit'
+        if not okc:
+            if isinstance(kc, tuple) and kc and kc[0] in ('fit', 'col', 'dist'):
+                rep.bad('D2.coappend', fit, anchor, 'self.columns does not receive the column names of the training table', construct='fit stores columns/univariates')
+            else:
+                rep.undecided('D2.coappend', fit, anchor, f'elements of self.columns not recognised ({kc})', construct='fit stores columns/univariates')
+        elif not oku:
+            if isinstance(ku, tuple) and ku and ku[0] in ('key', 'col', 'dist'):
+                rep.bad('D2.coappend', fit, st_u, 'self.univariates does not receive the fitted marginals', construct='fit stores columns/univariates')
+            else:
+                rep.undecided('D2.coappend', fit, st_u, f'elements of self.univariates not recognised ({ku})', construct='fit stores columns/univariates')
+        else:
+            L = kc[1]
+            rep.check('D2.coappend', fit, anchor, ku[1] == L and (ku[3] in (L, None)),
+                      'position i of self.columns and of self.univariates belong to the same training column',
+                      'columns and univariates are not built from the same iteration: position i of one no longer belongs to position i of the other',
+                      construct='co-ordered columns and univariates')
+            rep.check('D2.coappend', fit, anchor, not vc[2] and not vu[2], 'one entry per training column, none skipped',
+                      'columns can be skipped while fitting: a training column is missing from the model and from every sample',
+                      construct='every column kept')
+    return
 
 
 def d3_pipeline(ctx, rep):
@@ -136,44 +133,40 @@ def d3_pipeline(ctx, rep):
     sk, facts = gauss.space_analysis(ctx)
     prog = ctx.prog
     fn = gauss.gm_method(ctx, 'sample')
-    n = gauss.report_space(ctx, rep, 'D3.kinds', ['sample', '_get_normal_samples', '_transform_to_normal'])
-    # the argument of percent_point is kind P on every path, and comes from the loop's own column
-    found = 0
-    loopvars = {}
-    for lp in [x for x in walk_no_nested(fn.node) if isinstance(x, ast.For)]:
-        if isinstance(lp.target, ast.Tuple) and len(lp.target.elts) == 2 and all(isinstance(e, ast.Name) for e in lp.target.elts):
-            loopvars[lp.target.elts[1].id] = lp.target.elts[0].id
-    for (m, cid), lst in facts.items():
-        if m != 'sample':
+    # every value stored into the output is a data-space value obtained from the draw of its own column
+    from ..absint import Frame as _F
+    fn2, col_stores = gauss.sample_column_stores(ctx)
+    cls = prog.cls(gauss.GM)
+    for st, k, v, reach, loop in col_stores:
+        if not (isinstance(k, tuple) and k and k[0] == 'key'):
+            rep.undecided('D3.kinds', fn, st, 'the key of the output column is not the loop column', construct=f'column provenance: {short(st, 60)}')
             continue
-        path, call, args, kws = lst[0]
-        if not (isinstance(call.func, ast.Attribute) and call.func.attr in ('percent_point', 'ppf')):
-            continue
-        found += 1
-        kinds = {repr(a[0]) if a else 'none' for _p, _c, a, _k in lst}
-        good = all(a and a[0] in ('P', 'P0') for _p, _c, a, _k in lst)
-        undec = any(a and a[0] is TOP for _p, _c, a, _k in lst)
-        if undec and not any(a and isinstance(a[0], str) and a[0] not in ('P', 'P0') for _p, _c, a, _k in lst):
-            rep.undecided('D3.kinds', fn, call, f'kind of the quantile argument not derivable ({kinds})')
+        L = k[1]
+        if isinstance(v, tuple) and v and v[0] == 'x':
+            if v[2] == 'positional':
+                rep.bad('D3.kinds', fn, st, 'the normal draw passed to the marginal is taken from the sampled frame by position, not by the column '
+                        'name: under conditioning the frame\'s columns are the sorted remaining columns, so marginals receive each other\'s draws',
+                        construct=f'column provenance: {short(st, 60)}')
+            elif v[1] == L and v[2] == L:
+                rep.ok('D3.kinds', fn, st, 'marginal quantile of this column applied to the normal draw of this column', construct=f'column provenance: {short(st, 60)}')
+            elif v[2] in ('?', 'other'):
+                rep.undecided('D3.kinds', fn, st, 'source of the value passed to the marginal quantile not derivable', construct=f'column provenance: {short(st, 60)}')
+            else:
+                rep.bad('D3.kinds', fn, st, 'the marginal of one column is applied to the draw of another column', construct=f'column provenance: {short(st, 60)}')
+        elif isinstance(v, tuple) and v and v[0] == 'given':
+            rep.check('D3.kinds', fn, st, v[1] == L, 'the given value of this column', 'the given value of another column is stored', construct=f'column provenance: {short(st, 60)}')
         else:
-            rep.check('D3.kinds', fn, call, good, 'quantile argument has kind P (norm.cdf of a normal score)',
-                      f'quantile argument has kind {kinds}: the normal-space draw is not mapped through norm.cdf')
-        # index agreement
-        recv = call.func.value
-        if isinstance(recv, ast.Name) and recv.id in loopvars and call.args:
-            keyvar = loopvars[recv.id]
-            from ..idioms import depends_on
-            subs = _sample_subscripts(fn, call.args[0])
-            if not subs and depends_on(fn.node, call.args[0], _normal_sample_names(fn)):
-                rep.bad('D3.kinds', fn, call, 'the normal draw passed to the marginal is taken from the sampled frame by position, not by '
-                        'the column name: under conditioning the frame\'s columns are the sorted remaining columns, so marginals '
-                        'receive each other\'s draws', construct=f'positional selection: {short(call, 50)}')
-            if subs:
-                rep.check('D3.kinds', fn, call, all(isinstance(s.slice, ast.Name) and s.slice.id == keyvar for s in subs),
-                          f'the draw is selected by the same loop column ({keyvar}) as the marginal',
-                          'the normal draw passed to a marginal is selected by a different column than the marginal belongs to',
-                          construct=f'index agreement: {short(call, 50)}')
-    rep.floor('D3.kinds', 'marginal quantile calls in sample()', found, 1)
+            rep.undecided('D3.kinds', fn, st, f'provenance of the stored value not derivable ({v})', construct=f'column provenance: {short(st, 60)}')
+        # kind of the stored value
+        frk = _F(fn, {}, cls)
+        kind = sk.value(st.value, frk)
+        if kind == 'X':
+            rep.ok('D3.kinds', fn, st, 'the stored value is in data space (marginal quantile of a probability, or a given value)', construct=f'kind: {short(st, 60)}')
+        elif isinstance(kind, str):
+            rep.bad('D3.kinds', fn, st, f'the stored column has kind {kind}, not a data-space value', construct=f'kind: {short(st, 60)}')
+        else:
+            rep.undecided('D3.kinds', fn, st, 'kind of the stored value not derivable', construct=f'kind: {short(st, 60)}')
+    gauss.report_space_all(ctx, rep, 'D3.kinds')
     # fit side: norm.ppf present in _transform_to_normal with a P0 argument (mismatch list is empty) and cdf source
     tn = gauss.gm_method(ctx, '_transform_to_normal')
     ppf = [c for c in walk_no_nested(tn.node) if isinstance(c, ast.Call) and prog.resolve(tn.module, c.func) in (
